@@ -324,13 +324,19 @@ pub fn expectations(hist: &History, frame_max: usize) -> Vec<ChannelExpectation>
     let mut by_ch: BTreeMap<u16, ChannelExpectation> = BTreeMap::new();
     // channels and which thread/slot they belong to
     for c in &hist.conn {
-        if let ConnRec::OpenChannel { result: Ok(id), for_thread, invoke, ret, .. } = c {
+        if let ConnRec::KeptClosed { id, invoke, .. } = c {
+            if let Some(e) = by_ch.get_mut(id) {
+                e.frames.push((channel_close_frame(), format!("owner closes kept {}", id)));
+                e.stamps.push(*invoke);
+            }
+        }
+        if let ConnRec::OpenChannel { result: Ok(id), for_thread, invoke, ret, keep, .. } = c {
             let e = by_ch.entry(*id).or_insert(ChannelExpectation { ch: *id, frames: Vec::new(), stamps: Vec::new(), defined: true, why_undefined: String::new() });
             // an id may be opened several times over a session (owner open/close cycles)
             e.frames.push((channel_open_frame(), format!("open_channel -> {}", id)));
             e.stamps.push(*invoke);
-            if *for_thread == 0 {
-                // channels the owner keeps for itself carry nothing but open and close
+            if *for_thread == 0 && !*keep {
+                // a channel the owner opens and closes at once carries nothing but open and close
                 e.frames.push((channel_close_frame(), format!("owner closes {}", id)));
                 e.stamps.push(*ret);
             }
